@@ -49,7 +49,10 @@ def main():
             print(out0[-1500:]); print(out1[-1500:]); print(outs[-800:])
     finally:
         sh("git -C /repo worktree remove --force %s" % wt)
-    # detection
+    # detection (one at a time: it patches /repo itself; confirmations may run in parallel)
+    import fcntl
+    lk = open("/tmp/seedcheck.detect.lock", "w")
+    fcntl.flock(lk, fcntl.LOCK_EX)
     rc, out = sh("git -C /repo status --porcelain")
     assert out.strip() == "", "/repo not clean: " + out
     rc, out = sh("git -C /repo apply %s" % patch)
@@ -80,8 +83,10 @@ def main():
     shutil.copy(os.path.join(outdir, demo), os.path.join(dst, os.path.basename(demo)))
     if os.path.exists(os.path.join(outdir, "README.md")):
         shutil.copy(os.path.join(outdir, "README.md"), os.path.join(dst, "AGENT-README.md"))
+    elif os.path.exists(os.path.join(outdir, "NOTE.md")):
+        shutil.copy(os.path.join(outdir, "NOTE.md"), os.path.join(dst, "AGENT-README.md"))
     old = {}
-    mp = os.path.join(dst, "meta.json")
+    mp =os.path.join(dst, "meta.json")
     if os.path.exists(mp):
         old = json.load(open(mp))
     old.update(meta)
